@@ -6,6 +6,7 @@ import (
 	"net/http"
 	"net/http/httptest"
 	"sync"
+	"time"
 )
 
 // Call is one request received by a scripted server.
@@ -23,6 +24,7 @@ type Reply struct {
 	Header map[string]string
 	Body   []byte
 	Reset  bool // close the connection without answering (communication error)
+	Hang   bool // do not answer until the client gives up (at most 3 s): the client sees a timeout
 }
 
 // Scripted is a local HTTP server whose behaviour is a deterministic function (set per case) of the
@@ -48,6 +50,15 @@ func NewScripted() *Scripted {
 		rep := Reply{Status: http.StatusNotFound}
 		if fn != nil {
 			rep = fn(c)
+		}
+
+		if rep.Hang {
+			select {
+			case <-req.Context().Done():
+			case <-time.After(3 * time.Second):
+			}
+
+			return
 		}
 
 		if rep.Reset {
